@@ -100,7 +100,7 @@ pub fn test_case(c: &Case) -> Verdict {
 
 /// programs built so that a GC-candidate operator's argument evaluation allocates
 /// well over 1 KiB and the result is of a chosen kind
-fn gen_gc_shaped(t: &mut Tape) -> crate::r#gen::programs::GenProg {
+pub fn gen_gc_shaped(t: &mut Tape) -> crate::r#gen::programs::GenProg {
     use crate::dag::Dag;
     use crate::r#gen::atoms::int_bytes;
     let mut env = Dag::new();
